@@ -79,6 +79,16 @@ func confirmWithBinary(src string) (crashed bool, how string) {
 	return false, fmt.Sprintf("binary exits %d without a crash", r.Exit)
 }
 
+var hung string
+
+var identWithDotOrDollar = regexp.MustCompile(`[A-Za-z0-9_][.$]|[.$][A-Za-z0-9_.$]`)
+
+// safeForExec: the text cannot reach an os.Exit inside frontend.Exec (pass 2 runs operands that
+// contain "{{." through text/template; label names with '.' or '$' end up inside such operands).
+func safeForExec(src string) bool {
+	return !strings.Contains(src, "{{") && !strings.Contains(src, "}}") && !identWithDotOrDollar.MatchString(src)
+}
+
 func panicSite(p string) string {
 	// first gosk frame of the stack: stable enough to tell root causes apart
 	for _, part := range strings.Split(p, " | ") {
@@ -187,9 +197,29 @@ func checkC13(c CrashCase) Verdict {
 		return v
 	}
 	recordLast(c.Src)
+	if hung != "" {
+		// an earlier case left a spinning goroutine behind; nothing run after it is trustworthy
+		v.Fail, v.Sig = hung, "C13|hang"
+		return v
+	}
 	done := make(chan asm.NoExitResult, 1)
 	start := time.Now()
-	go func() { done <- asm.AssembleNoExit(c.Src) }()
+	// The real frontend.Exec is used whenever the text cannot reach one of its os.Exit calls (no
+	// template metacharacters, no '.'/'$' inside identifiers); otherwise the exit-free replica.
+	real := safeForExec(c.Src)
+	if real {
+		st.Classes["via-frontend.Exec"]++
+	} else {
+		st.Classes["via-replica"]++
+	}
+	go func() {
+		if real {
+			r := asm.Assemble(c.Src)
+			done <- asm.NoExitResult{ParseErr: r.ParseErr, Panic: r.Panic, Out: r.Out}
+			return
+		}
+		done <- asm.AssembleNoExit(c.Src)
+	}()
 	var r asm.NoExitResult
 	select {
 	case r = <-done:
@@ -199,6 +229,7 @@ func checkC13(c CrashCase) Verdict {
 		if crashed {
 			v.Fail = fmt.Sprintf("input of %d bytes does not terminate within 45 s in-process; %s\n--- input (first 600 bytes) ---\n%s", len(c.Src), how, head([]byte(c.Src), 600))
 			v.Sig = "C13|hang"
+			hung = v.Fail
 			return v
 		}
 		v.Skip = "slow in-process, fine in the binary (inconclusive)"
@@ -357,6 +388,17 @@ var propC13 = &Prop[CrashCase]{
 	Assume: []string{"asm.AssembleNoExit restates frontend.Exec without os.Exit; every crash is re-run through the gosk binary before it is reported"},
 	Gen: func(t *rapid.T) CrashCase {
 		loadCorpus()
+		if rapid.IntRange(0, 5).Draw(t, "exprfam") == 0 {
+			// expression trees in every operand position, including the ones C06 leaves out of its
+			// domain (division or remainder by something that evaluates to zero, 64-bit overflow)
+			ec := propC06.Gen(t)
+			if ec.Pos == "resb" {
+				ec.Pos = "dd" // a reservation computed from a huge value is the excluded ">16 MiB of output" case
+			}
+			zero := rapid.SampledFrom([]string{"", "", "/0", "/(1-1)", "%(2-2)", "/qz", "%qz", "/$", "*0x7fffffffffffffff", "-9223372036854775807-1", "/(qz*5)"}).Draw(t, "zero")
+			text := ec.E.Render() + zero
+			return CrashCase{Src: ec.header() + "qz\tEQU\t0\n" + ec.equLines() + ec.stmt(text, false, 0), Kind: "expr"}
+		}
 		var lines []LLine
 		switch rapid.IntRange(0, 4).Draw(t, "base") {
 		case 0:
@@ -418,6 +460,24 @@ var propC13 = &Prop[CrashCase]{
 					continue // nesting depth is bounded by the Go stack, see DESIGN.md
 				}
 				yield(CrashCase{Src: scaledInput(f, n), Kind: "scale", Family: f})
+			}
+		}
+		// nested 16-bit branches on the rel8 boundary (C04's chain grid): the branch-widening loop must terminate
+		for k := 2; k <= 4; k++ {
+			for g0 := 108; g0 <= 128; g0++ {
+				for _, gn := range []int{0, 1, 2, 6} {
+					c := BranchCase{Mode: 16, Org: -1, Kind: "chain", Trailing: true}
+					for i := 0; i < k; i++ {
+						c.Chain = append(c.Chain, []string{"JMP", "JE", "JNZ", "JC"}[(i+g0)%4])
+						if i == 0 {
+							c.Gaps = append(c.Gaps, g0)
+						} else {
+							c.Gaps = append(c.Gaps, gn)
+						}
+					}
+					src, _ := c.source()
+					yield(CrashCase{Src: src, Kind: "chain"})
+				}
 			}
 		}
 		// (c) growth of CPU time, measured on the binary
